@@ -68,7 +68,16 @@ func hashStores(ctx sdk.Context, keys []storetypes.StoreKey) string {
 func init() {
 	families["auth"] = func(rng *Rng, n int, out *Out, replay string) {
 		sifapp.SetConfig(false)
-		app := sifapp.Setup(false)
+		// accounts
+		const NACC = 14
+		var addrs []sdk.AccAddress
+		for i := 0; i < NACC; i++ {
+			addrs = append(addrs, sdk.AccAddress([]byte(fmt.Sprintf("c08_account_%02d______", i))[:20]))
+		}
+		// the role stores come from the genesis file, in a mix of spellings (see roleGenesis)
+		app := sifapp.SetupFromGenesis(false, func(app *sifapp.SifchainApp, gs sifapp.GenesisState) sifapp.GenesisState {
+			return roleGenesis(app, gs, addrs, rng)
+		})
 		ctx := app.BaseApp.NewContext(false, tmproto.Header{Height: 5})
 		rs, ok := app.CommitMultiStore().(*rootmulti.Store)
 		if !ok {
@@ -83,50 +92,18 @@ func init() {
 		sort.Slice(keys, func(i, j int) bool { return keys[i].Name() < keys[j].Name() })
 		out.Extra["stores_hashed"] = len(keys)
 
-		// accounts
-		const NACC = 14
-		var addrs []sdk.AccAddress
-		for i := 0; i < NACC; i++ {
-			a := sdk.AccAddress([]byte(fmt.Sprintf("c08_account_%02d______", i))[:20])
-			addrs = append(addrs, a)
+		for _, a := range addrs {
 			app.AccountKeeper.SetAccount(ctx, app.AccountKeeper.NewAccountWithAddress(ctx, a))
 		}
 		roles := authRoles
-		// set-up: accounts 0..5 hold one role each, 6 holds two, 7 is the oracle admin, 8 and 9 are on the clp
-		// whitelist, 10 is also ADMIN (so that ADMIN can be removed from 4 and the table still evolves), 11.. hold nothing
-		for i, r := range roles {
-			app.AdminKeeper.SetAdminAccount(ctx, &admintypes.AdminAccount{AdminType: r, AdminAddress: addrs[i].String()})
-		}
-		app.AdminKeeper.SetAdminAccount(ctx, &admintypes.AdminAccount{AdminType: admintypes.AdminType_CLPDEX, AdminAddress: addrs[6].String()})
-		app.AdminKeeper.SetAdminAccount(ctx, &admintypes.AdminAccount{AdminType: admintypes.AdminType_MARGIN, AdminAddress: addrs[6].String()})
-		app.AdminKeeper.SetAdminAccount(ctx, &admintypes.AdminAccount{AdminType: admintypes.AdminType_ADMIN, AdminAddress: addrs[10].String()})
-		app.OracleKeeper.SetAdminAccount(ctx, addrs[7])
-		app.ClpKeeper.SetClpWhiteList(ctx, []sdk.AccAddress{addrs[8], addrs[9]})
 		// ceth for RescueCeth
 		ceth := sdk.NewCoins(sdk.NewCoin(ethtypes.CethSymbol, sdk.NewInt(1000000000)))
 		if err := app.BankKeeper.MintCoins(ctx, ethtypes.ModuleName, ceth); err != nil {
 			panic(err)
 		}
 
-		// the role stores as the implementation holds them now (after genesis + set-up) → cfg lines
-		for _, a := range app.AdminKeeper.GetAdminAccounts(ctx) {
-			out.Emit(fmt.Sprintf("cfg admin %s %s", a.AdminType.String(), a.AdminAddress), "ok", "cfg", false)
-		}
-		if oa := app.OracleKeeper.GetAdminAccount(ctx); oa != nil {
-			out.Emit("cfg oracle "+oa.String(), "ok", "cfg", false)
-		} else {
-			out.Emit("cfg oracle -", "ok", "cfg", false)
-		}
-		if app.ClpKeeper.ExistsClpWhiteList(ctx) {
-			wl := app.ClpKeeper.GetClpWhiteList(ctx)
-			s := fmt.Sprintf("cfg clp %d", len(wl))
-			for _, a := range wl {
-				s += " " + a.String()
-			}
-			out.Emit(s, "ok", "cfg", false)
-		} else {
-			out.Emit("cfg clp -", "ok", "cfg", false)
-		}
+		// the role stores as the implementation holds them after genesis → cfg lines
+		emitRoleStores(app, ctx, out)
 
 		cases := mkCases(app, addrs)
 		out.Extra["handlers"] = len(cases)
@@ -240,6 +217,13 @@ func init() {
 				updatePools = hc
 			}
 		}
+		// an entry imported by genesis in upper case (MARGIN for 11): use, accepted removal under the canonical spelling, use
+		run(updatePools, addrs[11], 6*11)
+		run(cases[1], addrs[10], 5+6*11)
+		run(updatePools, addrs[11], 6*11+1)
+		reimportAdmin(app, ctx)
+		out.Emit("reimport", "ok", "reimport", false)
+		run(updatePools, addrs[11], 6*11+2)
 		span := 6 * NACC
 		for _, sp := range []int{0, 5} { // named in lower case / in upper case throughout
 			acct := 11 + sp/5
@@ -257,6 +241,10 @@ func init() {
 		run(updatePools, addrs[13], 6*13)
 		for out.N < n {
 			k++
+			if rng.Chance(1, 40) {
+				reimportAdmin(app, ctx) // export → import round trip of the role table in the middle of the history
+				out.Emit("reimport", "ok", "reimport", false)
+			}
 			if rng.Chance(1, 4) {
 				// a state branch that is dropped — a transaction whose later message fails, a simulation — after a grant
 				// (or removal) and a role lookup on it; then, in a later transaction, a privileged message of the account
@@ -296,16 +284,24 @@ func init() {
 // one spelling and removed under another); other address-typed payload fields and the Signer field itself use the
 // upper-case form now and then.
 // storedAuth reads, from the RAW key/value pairs of the three role stores as seen through ctx (never through
-// IsAdminAccount / ValidateAddress), what the account holds: the admin roles whose key "<TYPE>_<address>" names its
-// canonical string, whether the oracle admin entry is its bytes, whether the clp whitelist entry lists its string.
+// IsAdminAccount / ValidateAddress), what the account holds: the admin roles whose key "<TYPE>_<address>" names it
+// (its canonical string or any other valid spelling: whether the code honours other spellings is its business — what it
+// must not do is accept a signer no stored entry denotes; irrevocable entries are caught by chk c08.removed), whether the oracle admin entry is its bytes, whether the clp whitelist entry lists its string.
 func storedAuth(app *sifapp.SifchainApp, ctx sdk.Context, a sdk.AccAddress) string {
 	var roles []string
 	st := ctx.KVStore(app.GetKey(admintypes.StoreKey))
 	it := sdk.KVStorePrefixIterator(st, admintypes.AdminAccountStorePrefix)
 	for ; it.Valid(); it.Next() {
 		key := string(it.Key()[len(admintypes.AdminAccountStorePrefix):])
-		if i := strings.Index(key, "_"); i >= 0 && key[i+1:] == a.String() {
-			roles = append(roles, key[:i])
+		if i := strings.Index(key, "_"); i >= 0 {
+			// the stored string denotes the account: its canonical string, or another valid spelling of it
+			denotes := key[i+1:] == a.String()
+			if acc, err := sdk.AccAddressFromBech32(key[i+1:]); err == nil && acc.Equals(a) {
+				denotes = true
+			}
+			if denotes {
+				roles = append(roles, key[:i])
+			}
 		}
 	}
 	it.Close()
@@ -321,6 +317,110 @@ func storedAuth(app *sifapp.SifchainApp, ctx sdk.Context, a sdk.AccAddress) stri
 	cv := ctx.KVStore(app.GetKey(clptypes.StoreKey)).Get(clptypes.WhiteListValidatorPrefix)
 	clp := bytes.Contains(cv, []byte(a.String()))
 	return r + " " + b2s(oracle) + " " + b2s(clp)
+}
+
+// roleGenesis writes the three role stores into the genesis file, in a mix of spellings:
+//
+//	x/admin  accounts 0..5 hold one role each, 6 holds two, 10 is a second ADMIN — all in canonical lower case;
+//	         further entries (each with probability 3/4, the first always) in other spellings: MARGIN for 11 and ADMIN
+//	         for 12 in upper case, CLPDEX for 13 in upper case, TOKENREGISTRY for 5 in upper case (5 holds MARGIN in
+//	         lower case), PMTPREWARDS for a string that is no address, ETHBRIDGE for 11 in mixed case (not valid bech32);
+//	oracle   admin = account 7, spelled in upper case half of the time;
+//	clp      whitelist = accounts 8 (upper case half of the time) and 9.
+func roleGenesis(app *sifapp.SifchainApp, gs sifapp.GenesisState, addrs []sdk.AccAddress, rng *Rng) sifapp.GenesisState {
+	cdc := app.AppCodec()
+	var ag admintypes.GenesisState
+	cdc.MustUnmarshalJSON(gs[admintypes.ModuleName], &ag)
+	add := func(r admintypes.AdminType, spelling string) {
+		ag.AdminAccounts = append(ag.AdminAccounts, &admintypes.AdminAccount{AdminType: r, AdminAddress: spelling})
+	}
+	for i, r := range authRoles {
+		add(r, addrs[i].String())
+	}
+	add(admintypes.AdminType_CLPDEX, addrs[6].String())
+	add(admintypes.AdminType_MARGIN, addrs[6].String())
+	add(admintypes.AdminType_ADMIN, addrs[10].String())
+	mixed := []byte(addrs[11].String())
+	mixed[len(mixed)-1] = strings.ToUpper(string(mixed[len(mixed)-1]))[0]
+	mixed[len(mixed)-3] = strings.ToUpper(string(mixed[len(mixed)-3]))[0]
+	odd := []struct {
+		r admintypes.AdminType
+		s string
+	}{
+		{admintypes.AdminType_MARGIN, upperOf(addrs[11])}, {admintypes.AdminType_ADMIN, upperOf(addrs[12])},
+		{admintypes.AdminType_CLPDEX, upperOf(addrs[13])}, {admintypes.AdminType_TOKENREGISTRY, upperOf(addrs[5])},
+		{admintypes.AdminType_PMTPREWARDS, "not-an-address"}, {admintypes.AdminType_ETHBRIDGE, strings.ToUpper(string(mixed[:4])) + string(mixed[4:])},
+	}
+	for i, o := range odd {
+		if i == 0 || rng.Chance(3, 4) {
+			add(o.r, o.s)
+		}
+	}
+	gs[admintypes.ModuleName] = cdc.MustMarshalJSON(&ag)
+
+	var og oracletypes.GenesisState
+	cdc.MustUnmarshalJSON(gs[oracletypes.ModuleName], &og)
+	og.AdminAddress = addrs[7].String()
+	if rng.Bool() {
+		og.AdminAddress = upperOf(addrs[7])
+	}
+	gs[oracletypes.ModuleName] = cdc.MustMarshalJSON(&og)
+
+	var cg clptypes.GenesisState
+	cdc.MustUnmarshalJSON(gs[clptypes.ModuleName], &cg)
+	w8 := addrs[8].String()
+	if rng.Bool() {
+		w8 = upperOf(addrs[8])
+	}
+	cg.AddressWhitelist = []string{w8, addrs[9].String()}
+	gs[clptypes.ModuleName] = cdc.MustMarshalJSON(&cg)
+	return gs
+}
+
+// emitRoleStores writes the three role stores as cfg lines: the x/admin table from the RAW keys "<TYPE>_<string>" of
+// its store (the strings exactly as stored), the oracle admin and the clp whitelist as their keepers decode them.
+func emitRoleStores(app *sifapp.SifchainApp, ctx sdk.Context, out *Out) {
+	st := ctx.KVStore(app.GetKey(admintypes.StoreKey))
+	it := sdk.KVStorePrefixIterator(st, admintypes.AdminAccountStorePrefix)
+	for ; it.Valid(); it.Next() {
+		key := string(it.Key()[len(admintypes.AdminAccountStorePrefix):])
+		if i := strings.Index(key, "_"); i >= 0 {
+			out.Emit(fmt.Sprintf("cfg admin %s %s", key[:i], key[i+1:]), "ok", "cfg", false)
+		}
+	}
+	it.Close()
+	if oa := app.OracleKeeper.GetAdminAccount(ctx); oa != nil {
+		out.Emit("cfg oracle "+oa.String(), "ok", "cfg", false)
+	} else {
+		out.Emit("cfg oracle -", "ok", "cfg", false)
+	}
+	if app.ClpKeeper.ExistsClpWhiteList(ctx) {
+		wl := app.ClpKeeper.GetClpWhiteList(ctx)
+		s := fmt.Sprintf("cfg clp %d", len(wl))
+		for _, a := range wl {
+			s += " " + a.String()
+		}
+		out.Emit(s, "ok", "cfg", false)
+	} else {
+		out.Emit("cfg clp -", "ok", "cfg", false)
+	}
+}
+
+// reimportAdmin: an export → import round trip of the x/admin module state in the middle of a history: ExportGenesis,
+// wipe the module's account entries, InitGenesis of what was exported.  The role table must come back as it was.
+func reimportAdmin(app *sifapp.SifchainApp, ctx sdk.Context) {
+	exported := app.AdminKeeper.ExportGenesis(ctx)
+	st := ctx.KVStore(app.GetKey(admintypes.StoreKey))
+	var ks [][]byte
+	it := sdk.KVStorePrefixIterator(st, admintypes.AdminAccountStorePrefix)
+	for ; it.Valid(); it.Next() {
+		ks = append(ks, append([]byte{}, it.Key()...))
+	}
+	it.Close()
+	for _, k := range ks {
+		st.Delete(k)
+	}
+	app.AdminKeeper.InitGenesis(ctx, *exported)
 }
 
 // txItem: one message of a multi-message transaction
